@@ -220,7 +220,11 @@ impl<T> Receiver<T> {
     }
 
     fn recv_max_until(&self, timeout: Duration) -> Result<T, RecvTimeoutError> {
-        let deadline = Instant::now() + timeout;
+        let deadline = match Instant::now().checked_add(timeout) {
+            Some(d) => d,
+            // so far away that it never comes
+            None => return self.recv().map_err(|_| RecvTimeoutError::Disconnected),
+        };
         let mut remaining = timeout;
         loop {
             match self.inner.recv(Some(remaining)) {
